@@ -3,6 +3,7 @@ package props
 import (
 	"errors"
 	"fmt"
+	"strings"
 
 	jp "github.com/evanphx/json-patch/v5"
 	"github.com/evanphx/json-patch/v5/verifharness/core"
@@ -258,6 +259,50 @@ func init() {
 					o.Limit = []int64{0, 1, 1000000000}[c.R.Intn(3)]
 				}
 				judgeFailure(c, sc, o)
+			}},
+			{Name: "options-value-reused-after-failures", Count: n(6000, 120000), Run: func(c *core.Ctx, idx int) {
+				// one *ApplyOptions value for a history of calls, every other one failing after it has copied: the
+				// next call must fail or succeed exactly as it would with an options value of its own
+				reuseOpts = jp.NewApplyOptions()
+				defer func() { reuseOpts = nil }()
+				for k := 0; k < 4; k++ {
+					esc := c.R.Intn(2) == 0
+					o := V5Opts{NegIdx: true, EscapeHTML: esc}
+					cfg := &SeqCfg{Prof: encProf(esc), MinOps: 2, MaxOps: 6, MissRate: 0, ContinueAfterFail: true,
+						Kinds: []string{"copy", "copy", "copy", "add", "replace", "test"}}
+					sc := GenSeq(c.R, cfg, o.Ref())
+					if k%2 == 0 {
+						sc.Ops = append(sc.Ops, ref.Op{Kind: "test", Path: "/zz/nope", Value: mustParse("1"), HasValue: true})
+						sc.OpTexts = append(sc.OpTexts, OpText("test", "/zz/nope", "", "1", true))
+					}
+					lv := evalWithLimit(sc, o)
+					if len(lv.Hi) > 0 {
+						o.Limit = lv.Hi[len(lv.Hi)-1] + int64(c.R.Intn(3))
+					}
+					judgeFailure(c, sc, o)
+				}
+				c.Count("options-value-reused:histories")
+			}},
+			{Name: "copies-of-values-full-of-brackets", Exhaustive: true, Count: func(core.Tier) int { return 4 * 5 * 2 }, Run: func(c *core.Ctx, idx int) {
+				// brackets and braces inside strings and member names are not nesting: a copy of such a value is an
+				// ordinary copy (and a later operation reads the copy)
+				n := []int{9999, 10000, 10001, 20001}[idx%4]
+				idx /= 4
+				unit := []string{"[", "{", "[{", `]`, `{"`}[idx%5]
+				idx /= 5
+				s := strings.Repeat(unit, n)
+				q := gen.SpellString(c.R, s, gen.SpellEncOn, false)
+				doc := `{"log":` + q + `,"b":0}`
+				from := "/log"
+				if idx == 1 {
+					doc = `{"o":{` + q + `:[1]},"b":0}`
+					from = "/o"
+				}
+				ops := []ref.Op{{Kind: "copy", From: from, Path: "/b"}, {Kind: "copy", From: "/b", Path: "/c"}, {Kind: "test", Path: "/c", Value: mustParse(doc).Resolve(from), HasValue: true}}
+				texts := []string{OpText("copy", "/b", from, "", false), OpText("copy", "/c", "/b", "", false), OpText("test", "/c", "", mustParse(doc).Resolve(from).String(), true)}
+				sc := &SeqCase{DocText: doc, Doc: mustParse(doc), Ops: ops, OpTexts: texts}
+				judgeFailure(c, sc, V5Opts{NegIdx: true, EscapeHTML: true})
+				c.Count("brackets-in-strings:cases")
 			}},
 			{Name: "copy-limit-any-spelling", Count: n(12000, 240000), Run: func(c *core.Ctx, idx int) {
 				// documents in arbitrary spelling; copy sizes measured on the library's own output (see C12)
